@@ -95,7 +95,14 @@ def run(ctx, res):
                              ("wrong_extension_extract", ["-x", f"real.{wrong}"]), ("wrong_extension_extract_k7", ["-x", "real.k7"]),
                              ("wrong_extension_extract_into", ["-x", "--into", "dest", f"real.{wrong}"]),
                              ("wrong_extension_add", ["-r", f"real.{wrong}", "b.dat"]), ("no_extension_extract", ["-x", "real"]),
-                             ("wrong_extension_long_actions", ["--extract", f"real.{wrong}"])]
+                             ("wrong_extension_long_actions", ["--extract", f"real.{wrong}"]),
+                             ("wrong_extension_create_into_absent", ["-c", "--into", "newdir", f"arc.{wrong}", "b.dat"]),
+                             ("wrong_extension_add_into_absent", ["-r", "--into", "newdir", f"real.{wrong}", "b.dat"]),
+                             ("no_extension_create_into_absent", ["--create", "--into", "newdir/deeper", "arc", "b.dat"])]
+                # (7) an unknown option next to list / extract of an archive that exists
+                for opt in ("--bogus", "-z", "--force"):
+                    cfgs += [(f"unknown_option_with_extract_of_existing:{opt}", ["-x", opt, f"real.{ext}"]), (f"unknown_option_with_list_of_existing:{opt}", ["-t", f"real.{ext}", opt]),
+                             (f"unknown_option_with_add_to_existing:{opt}", ["-r", f"real.{ext}", opt, "b.dat"])]
             elif tool == "moto_nl":
                 cfgs += [("abbreviated_option", ["--line-incr", "5", "p.lst"]), ("bad_int", ["-i", "abc", "p.lst"])]
             elif tool == "moto_bas2lst":
@@ -127,7 +134,7 @@ def run(ctx, res):
         elif rc == 0:
             res.violate("argument_errors", "an argument error is accepted with status 0", case, {"out": out[-200:]}, {"clause": "rejects"})
         if before != after:
-            ch = sorted(k for k in set(before) | set(after) if before.get(k) != after.get(k))
+            ch = sorted(k for k in set(before) | set(after) if ((k in before) != (k in after) or before.get(k) != after.get(k)))
             res.violate("argument_errors", "a file was created or modified although the arguments are wrong", case, ch[:5], {"clause": "no_effect"})
     res.sample({"tool": "moto_sdar", "invocation": "module", "config": "wrong_extension", "args": ["-c", "arc.fd", "b.dat"]})
 
@@ -139,10 +146,20 @@ def run(ctx, res):
              "dir.sd/a", "dir.x/a.fd", "a.sd ", "a. sd", "a.k7", "sd", "fd", "a.dsk", "a.SDD", "x.y.z.FD"]
     for fl in ("sd", "fd"):
         answers = drv([f"disk.archivename {fl} {cps(n)}" for n in names])
+        good = ctx.fresh_dir()
+        with open(os.path.join(good, "b.dat"), "wb") as f:
+            f.write(b"data")
+        assert run_cli(D.cli(fl).run, ["-c", "good." + fl, "b.dat"], cwd=good)[0] == "ok0"
+        genuine = open(os.path.join(good, "good." + fl), "rb").read()
         for n, ans in zip(names, answers):
             d = ctx.fresh_dir()
+            # a genuine archive of this flavour sits under the name: a tool that accepts the name lists it (status 0); a tool that
+            # refuses it ends with a non-zero status — whatever the way it reports the refusal — and the listing is not printed
+            os.makedirs(os.path.dirname(os.path.join(d, n)) or d, exist_ok=True)
+            with open(os.path.join(d, n), "wb") as f:
+                f.write(genuine)
             status, out = run_cli(D.cli(fl).run, ["-t", n], cwd=d)
-            accepted = status != "ValueError"       # with a good name the tool goes on and fails to open the (absent) file
+            accepted = status == "ok0" and "B.DAT" in out
             case = {"flavour": fl, "archive": n}
             st.see(case)
             st.compared += 1
@@ -193,7 +210,7 @@ def run(ctx, res):
                     # repeated extraction overwrites earlier results
                     # earlier results: one shorter, one of the very length of the member but with other bytes; the long option name this time
                     with open(places[0], "wb") as f:
-                        f.write(b"stale")
+                        f.write(b"stale" if sub != "sub" else b"10 PRINT\r" + b"20 REM a later, longer version\r" * 40)     # shorter / longer than the member
                     with open(places[1], "wb") as f:
                         f.write(b"ATAD" * 100)
                     rc, out, err = invoke(kind, tool, ["--extract", arc], d, target)
@@ -210,11 +227,33 @@ def run(ctx, res):
                     with open(places[0], "wb") as f:
                         f.write(b"10 TNIRP\r")          # same length as the member, other bytes
                     with open(places[1], "wb") as f:
-                        f.write(b"")
+                        f.write(b"" if sub != "." else b"data" * 100 + b"tail of a longer, older file" * 50)
                     rc, out, err = invoke(kind, tool, ["--extract", "--verbose", "--into", "dest/deep", arc], d, target)
                     st.see(dict(case, step="re-extract --into"))
                     if rc != 0 or open(places[0], "rb").read() != b"10 PRINT\r" or open(places[1], "rb").read() != b"data" * 100:
                         res.violate("placement", "extracting again under --into does not overwrite the earlier results", case, {"rc": rc, "err": err[-300:]}, {"clause": "reextract"})
+                # the same with absolute paths: the archive named absolutely and no --into (outputs beside the archive, nothing under the
+                # working directory), then --into given absolutely (outputs there)
+                if sub == "sub":
+                    other = ctx.fresh_dir()           # the working directory of these runs: elsewhere
+                    for p in ([os.path.join(base, n) for n in want] if tool == "moto_tar" else [os.path.join(base, "side0", n) for n in want]):
+                        if os.path.exists(p):
+                            os.remove(p)
+                    before_other = P.tree(other)
+                    rc, out, err = invoke(kind, tool, ["-x", os.path.join(d, arc)], other, target)
+                    st.see(dict(case, step="extract, absolute archive"))
+                    placed = [os.path.join(base, n) for n in want] if tool == "moto_tar" else [os.path.join(base, "side0", n) for n in want]
+                    if rc != 0 or not all(os.path.exists(p) for p in placed) or P.tree(other) != before_other:
+                        res.violate("placement", "extract does not place its outputs beside the archive", dict(case, archive="<absolute>/" + arc),
+                                    {"rc": rc, "err": err[-300:], "beside": [os.path.exists(p) for p in placed], "cwd": sorted(P.tree(other))[:8]}, {"clause": "extract_default_placement"})
+                    absinto = os.path.join(ctx.fresh_dir(), "abs", "out")
+                    before_other = P.tree(other)
+                    rc, out, err = invoke(kind, tool, ["-x", "--into", absinto, os.path.join(d, arc)], other, target)
+                    st.see(dict(case, step="extract --into absolute"))
+                    placed = [os.path.join(absinto, n) for n in want] if tool == "moto_tar" else [os.path.join(absinto, "side0", n) for n in want]
+                    if rc != 0 or not all(os.path.exists(p) for p in placed) or P.tree(other) != before_other:
+                        res.violate("placement", "extract --into does not place its outputs under the given directory", dict(case, into="<absolute>"),
+                                    {"rc": rc, "err": err[-300:], "under_into": [os.path.exists(p) for p in placed], "cwd": sorted(P.tree(other))[:8]}, {"clause": "extract_into_placement"})
                 # create / add --into: the manuals say the archive goes under the directory
                 for action in (["-c"], ["-r"]) if tool != "moto_tar" else (["-c"],):
                     d2 = fresh_world(ctx, tool)
@@ -231,9 +270,54 @@ def run(ctx, res):
                     if rc != 0 or not under or beside:
                         res.violate("placement", "create/add --into does not place the archive under the given directory",
                                     dict(case, action=action[0]), {"rc": rc, "written_under_into": under, "written_at_given_path": beside},
-                                    {"clause": "create_into_placement"})
+                                    # the recorded finding K1 is exactly this: status 0, --into ignored, the archive written at the path given;
+                                    # a crash, an archive written nowhere or in both places is another violation
+                                    {"clause": "create_into_placement", "mode": "into_ignored" if rc == 0 and beside and not under else "other"})
     res.sample({"tool": "moto_tar", "archive": "sub/arc.k7", "steps": ["create", "list", "extract", "re-extract", "extract --into"]})
 
+    # "starts under python3 -m <tool>": with nothing but the standard library on the path (no site-packages: the project declares no
+    # dependency) and under every interpreter of this machine that satisfies the declared `requires-python`
+    st = res.stream("clean_interpreters", exhaustive=True)
+    import re
+    import tomllib
+    proj = tomllib.load(open(os.path.join(REPO, "pyproject.toml"), "rb")).get("project", {})
+    m = re.match(r"\s*>=\s*(\d+)\.(\d+)", proj.get("requires-python", ">= 3.0"))
+    floor = (int(m.group(1)), int(m.group(2))) if m else (3, 0)
+    declared_deps = proj.get("dependencies", [])
+    interps = []
+    for cand in [PY] + [x for mnr in range(8, 16) for x in (f"/usr/bin/python3.{mnr}", f"/usr/local/bin/python3.{mnr}")]:
+        if not os.path.exists(cand) or os.path.realpath(cand) in [os.path.realpath(i) for i, _ in interps]:
+            continue
+        try:
+            v = subprocess.run([cand, "-S", "-c", "import sys; print(sys.version_info[0], sys.version_info[1])"], capture_output=True, timeout=60)
+            ver = tuple(map(int, v.stdout.split()))
+        except Exception:
+            continue
+        if v.returncode == 0 and ver >= floor:
+            interps.append((cand, ver))
+    res.count("interpreters_tried", len(interps))
+    for py, ver in interps:
+        flags = ["-S", "-B"] if not declared_deps else ["-B"]
+        for tool in TOOLS:
+            d = fresh_world(ctx, "none")
+            with open(os.path.join(d, "n.lst"), "w") as f:
+                f.write("10 PRINT \"A\"\n20 GOTO 10\n")
+            runs = [("help", ["--help"])]
+            if tool in ARCHIVERS:
+                runs += [("create", ["-c", "t." + ARCHIVERS[tool], "a.bas", "b.dat"]), ("list", ["-t", "-v", "t." + ARCHIVERS[tool]]), ("extract", ["-x", "--into", "o", "t." + ARCHIVERS[tool]])]
+            else:
+                runs += [("convert", {"moto_nl": ["p.lst"], "moto_prettier": ["p.lst"], "moto_bas2lst": ["q.bas,a"], "moto_lst2bas": ["n.lst"]}[tool])]
+            for name, args in runs:
+                try:
+                    pr = subprocess.run([py] + flags + ["-m", tool] + args, cwd=d, env=P.env(), capture_output=True, timeout=300)
+                    rc, err = pr.returncode, pr.stderr.decode(errors="replace")
+                except subprocess.TimeoutExpired:
+                    rc, err = -999, "timeout"
+                case = {"tool": tool, "python": "%d.%d" % ver, "site_packages": bool(declared_deps), "run": name}
+                st.see(case)
+                if rc != 0:
+                    res.violate("clean_interpreters", "the command does not start (or fails) under an interpreter the project declares it supports, with the declared dependencies only",
+                                case, err[-300:], {"clause": "starts"})
     # failures of a run must reach the caller as a non-zero exit status, whichever way the tool is started
     st = res.stream("failure_status", exhaustive=True)
     for tool, ext in ARCHIVERS.items():
@@ -259,5 +343,5 @@ def run(ctx, res):
                 if rc == 0:
                     res.violate("failure_status", "a failed run ends with status 0", case, {"out": out[-200:], "err": err[-200:]}, {"clause": "rejects"})
                 if before != after:
-                    ch = sorted(k for k in set(before) | set(after) if before.get(k) != after.get(k))
+                    ch = sorted(k for k in set(before) | set(after) if ((k in before) != (k in after) or before.get(k) != after.get(k)))
                     res.violate("failure_status", "a failed run created or modified a file", case, ch[:5], {"clause": "no_effect"})
